@@ -4,9 +4,9 @@
    epoch boundary, deposit, fork upgrade, and after serialise -> reload -> NewEpochsContext) is compared with
    Run.spec_epc_view of the same state bytes, evaluated by the extracted model.
    This file: the design fact about the Spec that makes zrnt's once-per-epoch caching sound, for ALL states and blocks.
-   Statements only; proofs live in Beacon/Proofs/{Frame,Lengths,Stability,EpcInv,EpochBoundary,ViewExt}.v
+   Statements only; proofs live in Beacon/Proofs/{Frame,Lengths,Stability,EpcInv,EpochBoundary,ViewExt,SyncRotation}.v
    (re-exported by Beacon/Proofs/C08Theorems.v). *)
-From Coq Require Import String NArith List Bool.
+From Coq Require Import String NArith List Bool Lia ZifyN.
 From V Require Import Ssz.SszCore Beacon.Config Beacon.Schemas Beacon.State
   Beacon.Spec.Helpers Beacon.Spec.Epoch Beacon.Spec.Block Beacon.Spec.Transition Beacon.Run
   Beacon.Proofs.C08Theorems.
@@ -112,6 +112,12 @@ Proof.
   - eapply li_state_transition; eassumption.
 Qed.
 Print Assumptions C08_lengths_inv_preserved.
+
+(* ... and the genesis state has it, so it holds at every point of every chain from genesis *)
+Theorem C08_lengths_inv_genesis : forall E h t deps st,
+  initialize_beacon_state_from_eth1 E h t deps = Some st -> lengths_inv Phase0 st.
+Proof. exact li_genesis. Qed.
+Print Assumptions C08_lengths_inv_genesis.
 
 (* ======================= 4. validator-field stability (blocks) ======================= *)
 (* vstable E ce vs vs' := vs' = old' ++ new where old' is pointwise [vkeep] of vs (same pubkey, effective balance,
@@ -294,6 +300,21 @@ Theorem C08_rotate_matches_partial : forall E f st f' st',
 Proof. exact rotate_matches. Qed.
 Print Assumptions C08_rotate_matches_partial.
 
+(* sync committees across process_epoch: untouched except by process_sync_committee_updates, which at a period
+   boundary moves next to current and installs get_next_sync_committee of the (slot- and sync-committee-identical)
+   state `pre` it runs on.  sc_same st pre := same slot, same current and next sync committee. *)
+Theorem C08_process_epoch_sync : forall E f st st', process_epoch E f st = Some st' ->
+  match f with
+  | Phase0 => current_sync_committee st' = current_sync_committee st /\ next_sync_committee st' = next_sync_committee st
+  | _ =>
+      if (get_current_epoch E st + 1) mod EPOCHS_PER_SYNC_COMMITTEE_PERIOD (cfg E) =? 0
+      then current_sync_committee st' = next_sync_committee st /\
+           exists pre, sc_same st pre /\ get_next_sync_committee E pre = Some (next_sync_committee st')
+      else current_sync_committee st' = current_sync_committee st /\ next_sync_committee st' = next_sync_committee st
+  end.
+Proof. exact process_epoch_sync. Qed.
+Print Assumptions C08_process_epoch_sync.
+
 (* ======================= non-vacuity ======================= *)
 (* the configuration hypotheses hold for the mainnet and the minimal values of the four constants involved *)
 Example C08_config_wf_mainnet_minimal : forall c,
@@ -370,3 +391,215 @@ Proof.
   split; [vm_compute; discriminate|].
   split; vm_compute; split; reflexivity.
 Qed.
+
+(* the last Config_wf bound is tight: with EPOCHS_PER_HISTORICAL_VECTOR = MIN_SEED_LOOKAHEAD + 2 a state change allowed
+   by block_frame (it is what process_randao does: overwrite the mix at index current_epoch mod vector length) changes
+   the seed of the previous epoch *)
+Open Scope string_scope.
+Definition tight_num (k : string) : N :=
+  if k =? "SLOTS_PER_EPOCH" then 8 else if k =? "MIN_SEED_LOOKAHEAD" then 1 else if k =? "MAX_SEED_LOOKAHEAD" then 4
+  else if k =? "EPOCHS_PER_HISTORICAL_VECTOR" then 3 else 1.
+Close Scope string_scope.
+Definition tight_E : Env := mkEnv (config_of tight_num (fun _ => [0; 0; 0; 1])) (fun b => b) (fun _ => nv_z32)
+                                 (fun _ _ _ => true) (fun _ _ _ => true) (fun _ => repeat 0 48) (fun _ _ _ => true).
+Definition tight_st : BeaconState :=
+  mkState 0 nv_z32 32 (mkFork [0;0;0;1] [0;0;0;1] 0) (mkHeader 31 0 nv_z32 nv_z32 nv_z32) [] [] [] (mkEth1Data nv_z32 0 nv_z32) [] 0
+          [] [] [repeat 1 32; repeat 2 32; repeat 3 32] [] [] [] [] [] [] (mkCheckpoint 0 nv_z32) (mkCheckpoint 0 nv_z32)
+          (mkCheckpoint 0 nv_z32) [] empty_sc empty_sc (VCont []) 0 0 [].
+Definition tight_st' : BeaconState :=
+  mkState 0 nv_z32 32 (mkFork [0;0;0;1] [0;0;0;1] 0) (mkHeader 31 0 nv_z32 nv_z32 nv_z32) [] [] [] (mkEth1Data nv_z32 0 nv_z32) [] 0
+          [] [] [repeat 1 32; repeat 7 32; repeat 3 32] [] [] [] [] [] [] (mkCheckpoint 0 nv_z32) (mkCheckpoint 0 nv_z32)
+          (mkCheckpoint 0 nv_z32) [] empty_sc empty_sc (VCont []) 0 0 [].
+Example C08_seed_bound_tight :
+  EPOCHS_PER_HISTORICAL_VECTOR (cfg tight_E) = MIN_SEED_LOOKAHEAD (cfg tight_E) + 2 /\
+  block_frame tight_E tight_st tight_st' /\
+  get_previous_epoch tight_E tight_st = 3 /\
+  get_seed tight_E tight_st' 3 DOMAIN_BEACON_ATTESTER <> get_seed tight_E tight_st 3 DOMAIN_BEACON_ATTESTER.
+Proof.
+  split; [reflexivity|]. split.
+  - constructor; try reflexivity; [repeat split|apply vstable_refl|].
+    intros j Hj. change (get_current_epoch tight_E tight_st mod EPOCHS_PER_HISTORICAL_VECTOR (cfg tight_E)) with 1 in Hj.
+    unfold nthN. change (N.of_nat (length (randao_mixes tight_st'))) with 3. change (N.of_nat (length (randao_mixes tight_st))) with 3.
+    destruct (N.ltb_spec j 3) as [Hlt|]; [|reflexivity].
+    assert (Hc : j = 0 \/ j = 2) by lia. destruct Hc as [->| ->]; reflexivity.
+  - split; [reflexivity|]. vm_compute. discriminate.
+Qed.
+
+(* ======================= 7. the implementation side: zrnt's maintenance algorithm =======================
+   Sections 1-6 are facts about the Spec.  This section is about the code: Beacon/Impl/Epc.v models zrnt's EpochsContext
+   (record `epc`: previous/current/next ShufflingEpoch, proposers, effective balances, total active stake and its square
+   root, current/next sync-committee indices (None = nil pointer), and the list of pubkeys the ValidatorPubkeyCache handle
+   denotes - C16) and the functions that write it: NewEpochsContext, RotateEpochs, LoadSyncCommittees, the deposit path of
+   ProcessDeposit (cache.AddValidator + the EffectiveBalances extension), UpgradeMaybe; uint64 arithmetic wraps, `/` and
+   `%` by zero panic, errors are `Err`.  The drivers epc_slot_step / epc_process_slots / epc_state_transition / epc_chain
+   apply these functions at the points where common/transition.go calls them, to the states the Spec computes.
+   Proofs: Beacon/Refine/EpcRefine.v (stable names: Beacon/Refine/C08ImplTheorems.v).
+
+     epc_to_view e           the projection of the Go context onto Run.epc_view (committee tables and active lists of the three
+                             epochs, proposers as `Some`, effective balances, total active stake, sync indices)
+     epc_matches E f st e := epc_to_view e = spec_epc_view E f st  /\  epc_pubkeys e = map v_pubkey (validators st)  /\
+                             epc_tags_ok E f st e
+     epc_tags_ok             the fields the view does not show but RotateEpochs reads: the Epoch tags of the previous and the
+                             next shuffling and of the proposers, the cached square root, and "from altair on both sync
+                             committees are loaded (not nil)"
+     shuffle_ok E st e     := ShufflingRefine.shuffling_params_ok for the active set of epoch e (the C07 side conditions)
+     proposers_ok E st       the hypotheses of C07T_proposers_refine at st; its last field: the proposer sampling of every
+                             slot of the current epoch terminates within zrnt's cap of 1000 * 32 candidates
+     rotate_ok E st        := shuffle_ok (current epoch + 1), proposers_ok, and the uint64 ranges
+                             sum of active effective balances < 2^64 (TotalActiveStake += eff), EFFECTIVE_BALANCE_INCREMENT < 2^64,
+                             current_epoch + 1 + EPOCHS_PER_HISTORICAL_VECTOR < 2^64 (GetSeed), 0 < EPOCHS_PER_SYNC_COMMITTEE_PERIOD
+     new_ok E st           := shuffle_ok (previous epoch), shuffle_ok (current epoch), rotate_ok
+     sync_registered f st  := from altair on, every pubkey of both sync committees of st is in the registry
+     slot_hyp / process_slots_hyp / transition_hyp / chain_hyp
+                             rotate_ok asked of every state on which RotateEpochs runs along the step / the slots / the
+                             transition / the chain (the state just after process_epoch and the slot increment), plus
+                             current_epoch + 1 < FAR_FUTURE_EPOCH at every block
+   `_partial` below = conditional on these side conditions (C07's conditions and uint64 ranges), nothing else. *)
+From V Require Import Base.U64 Base.Outcome Beacon.Impl.Shuffling Beacon.Impl.Epc Beacon.Refine.C08ImplTheorems.
+From RecordUpdate Require Import RecordSet.
+Import RecordSetNotations.
+
+(* NewEpochsContext(state) succeeds and matches the state *)
+Theorem C08_impl_new_epochs_context_matches_partial : forall E f st,
+  Config_wf (cfg E) -> new_ok E st -> sync_registered f st ->
+  exists e, new_epochs_context E f st = Ok e /\ epc_matches E f st e.
+Proof. exact C08I_new_epochs_context_matches. Qed.
+Print Assumptions C08_impl_new_epochs_context_matches_partial.
+
+(* a matching context knows every sync-committee member: sync_registered is a consequence, not an extra hypothesis *)
+Theorem C08_impl_matches_sync_registered : forall E f st e, epc_matches E f st e -> sync_registered f st.
+Proof. exact C08I_epc_matches_sync_registered. Qed.
+Print Assumptions C08_impl_matches_sync_registered.
+
+(* a block: the context only gains the pubkey and the effective balance of every validator the block appended
+   (epc_after_block e st st' := e with those two lists extended by the registry entries of st' beyond |validators st|) *)
+Theorem C08_impl_epc_inv_block_partial : forall E f st blk st' e,
+  Config_wf (cfg E) -> get_current_epoch E st + 1 < FAR_FUTURE_EPOCH ->
+  epc_matches E f st e -> process_block E f st blk = Some st' ->
+  epc_matches E f st' (epc_after_block e st st').
+Proof. exact C08I_epc_inv_block. Qed.
+Print Assumptions C08_impl_epc_inv_block_partial.
+
+(* ... and that extension is what the Go deposit path computes: ProcessDeposit's decision (`exists := ok && index < count`
+   asked of the pubkey cache), cache.AddValidator and the EffectiveBalances extension (fix 8e640f4), deposit by deposit *)
+Theorem C08_impl_apply_deposit_refines : forall E f st e pk wc amount sig,
+  0 < EFFECTIVE_BALANCE_INCREMENT (cfg E) -> epc_matches E f st e ->
+  epc_apply_deposit E e st pk wc amount sig = Ok (epc_after_block e st (apply_deposit E f st pk wc amount sig)).
+Proof. exact C08I_epc_apply_deposit_refines. Qed.
+Print Assumptions C08_impl_apply_deposit_refines.
+
+Theorem C08_impl_process_deposits_refines_partial : forall E f deps st st' e,
+  Config_wf (cfg E) -> get_current_epoch E st + 1 < FAR_FUTURE_EPOCH -> 0 < EFFECTIVE_BALANCE_INCREMENT (cfg E) ->
+  epc_matches E f st e -> for_ops deps (process_deposit E f) st = Some st' ->
+  epc_process_deposits E f st e deps = Ok (epc_after_block e st st') /\ block_frame E st st'.
+Proof. exact C08I_epc_process_deposits_refines. Qed.
+Print Assumptions C08_impl_process_deposits_refines_partial.
+
+(* a slot step inside an epoch: zrnt does not touch the context, and it still matches *)
+Theorem C08_impl_epc_inv_slot : forall E f st f' st' e,
+  0 < SLOTS_PER_EPOCH (cfg E) -> (slot st + 1) mod SLOTS_PER_EPOCH (cfg E) <> 0 ->
+  epc_matches E f st e -> slot_step E f st = Some (f', st') ->
+  f' = f /\ epc_slot_step E f st e = Ok e /\ epc_matches E f st' e.
+Proof. exact C08I_epc_inv_slot. Qed.
+Print Assumptions C08_impl_epc_inv_slot.
+
+(* the epoch boundary: RotateEpochs, run on the state after process_epoch and the slot increment, succeeds and
+   re-establishes the match (previous := current, current := next from the cache; next shuffling, proposers and stake
+   recomputed; at a sync-committee period boundary current := cached next and next is hydrated from the state) *)
+Theorem C08_impl_epc_inv_rotate_partial : forall E f st st1 e,
+  Config_wf (cfg E) -> lengths_inv f st -> (slot st + 1) mod SLOTS_PER_EPOCH (cfg E) = 0 ->
+  epc_matches E f st e ->
+  process_epoch E f (process_slot E f st) = Some st1 ->
+  rotate_ok E (st1 <| slot := slot st1 + 1 |>) ->
+  exists e', rotate_epochs E f (st1 <| slot := slot st1 + 1 |>) e = Ok e' /\
+             epc_matches E f (st1 <| slot := slot st1 + 1 |>) e'.
+Proof. exact C08I_epc_inv_rotate. Qed.
+Print Assumptions C08_impl_epc_inv_rotate_partial.
+
+(* fork upgrades: UpgradeMaybe's only context operation is LoadSyncCommittees after the altair upgrade; it succeeds, and
+   the context matches the upgraded state under the new fork (no side condition at all) *)
+Theorem C08_impl_epc_inv_upgrade : forall E fuel f st f' st' e,
+  epc_matches E f st e -> upgrade_maybe E fuel f st = Some (f', st') ->
+  exists e', epc_upgrade_maybe E fuel f st e = Ok e' /\ epc_matches E f' st' e'.
+Proof. exact C08I_epc_inv_upgrade. Qed.
+Print Assumptions C08_impl_epc_inv_upgrade.
+
+(* any slot step (ProcessSlot; ProcessEpoch; SetSlot; RotateEpochs; UpgradeMaybe) and a whole StateTransition *)
+Theorem C08_impl_epc_inv_slot_step_partial : forall E f st f' st' e,
+  Config_wf (cfg E) -> lengths_inv f st -> epc_matches E f st e ->
+  slot_step E f st = Some (f', st') -> slot_hyp E f st ->
+  exists e', epc_slot_step E f st e = Ok e' /\ epc_matches E f' st' e'.
+Proof. exact C08I_epc_inv_slot_step. Qed.
+Print Assumptions C08_impl_epc_inv_slot_step_partial.
+
+Theorem C08_impl_epc_inv_state_transition_partial : forall E f st e bf sb validate f' st',
+  Config_wf (cfg E) -> lengths_inv f st -> epc_matches E f st e ->
+  state_transition E f st bf sb validate = Some (f', st') -> transition_hyp E f st sb ->
+  exists e', epc_state_transition E f st e bf sb validate = Ok e' /\ epc_matches E f' st' e'.
+Proof. exact C08I_epc_inv_state_transition. Qed.
+Print Assumptions C08_impl_epc_inv_state_transition_partial.
+
+(* THE implementation theorem.  Full statement: along every chain of empty-slot advances and signed blocks that the Spec
+   accepts, the context zrnt maintains exists (no error) and matches the state reached. *)
+Definition C08_epc_always_fresh_full : Prop := forall E steps f st e f' st',
+  Config_wf (cfg E) -> lengths_inv f st -> epc_matches E f st e ->
+  spec_chain E steps f st = Some (f', st') ->
+  exists e', epc_chain E steps f st e = Ok e' /\ epc_matches E f' st' e'.
+(* `_partial`: proved under chain_hyp (see the glossary above).  The gap is not closable as stated: zrnt's
+   RotateEpochs returns an error where the Spec goes on - no active validator in the new epoch, or proposer sampling
+   needing more than 32000 candidates (the Spec's loop is bounded only by PROPOSER_FUEL) - and its uint64 arithmetic
+   wraps where the Spec computes in N.  chain_hyp excludes exactly these shapes, state by state. *)
+Theorem C08_epc_always_fresh_partial : forall E steps f st e f' st',
+  Config_wf (cfg E) -> lengths_inv f st -> epc_matches E f st e ->
+  spec_chain E steps f st = Some (f', st') -> chain_hyp E steps f st ->
+  exists e', epc_chain E steps f st e = Ok e' /\ epc_matches E f' st' e' /\ lengths_inv f' st'.
+Proof. exact C08I_epc_always_fresh. Qed.
+Print Assumptions C08_epc_always_fresh_partial.
+
+(* the usual start: the context NewEpochsContext builds for the first state (genesis: sync_registered Phase0 is trivial) *)
+Theorem C08_epc_always_fresh_from_new_partial : forall E steps f st f' st',
+  Config_wf (cfg E) -> lengths_inv f st -> new_ok E st -> sync_registered f st ->
+  spec_chain E steps f st = Some (f', st') -> chain_hyp E steps f st ->
+  exists e0 e', new_epochs_context E f st = Ok e0 /\ epc_chain E steps f st e0 = Ok e' /\ epc_matches E f' st' e'.
+Proof. exact C08I_epc_always_fresh_from_new. Qed.
+Print Assumptions C08_epc_always_fresh_from_new_partial.
+
+(* reload: NewEpochsContext for the state a chain has reached gives the maintained context on everything that is
+   compared, and continuing any further chain from either context gives equal projections again (and the Spec's view) *)
+Theorem C08_reload_continue_same_partial : forall E steps f st e f' st' more f'' st'',
+  Config_wf (cfg E) -> lengths_inv f st -> epc_matches E f st e ->
+  spec_chain E steps f st = Some (f', st') -> chain_hyp E steps f st -> new_ok E st' ->
+  spec_chain E more f' st' = Some (f'', st'') -> chain_hyp E more f' st' ->
+  exists live fresh live2 fresh2,
+    epc_chain E steps f st e = Ok live /\ new_epochs_context E f' st' = Ok fresh /\
+    epc_to_view live = epc_to_view fresh /\ epc_pubkeys live = epc_pubkeys fresh /\
+    epc_chain E more f' st' live = Ok live2 /\ epc_chain E more f' st' fresh = Ok fresh2 /\
+    epc_to_view live2 = epc_to_view fresh2 /\ epc_pubkeys live2 = epc_pubkeys fresh2 /\
+    epc_to_view live2 = spec_epc_view E f'' st''.
+Proof. exact C08I_reload_continue_same. Qed.
+Print Assumptions C08_reload_continue_same_partial.
+
+(* non-vacuity of the implementation theorems: ci_E (SLOTS_PER_EPOCH 8, trivial oracles), ci_st (phase0, slot 9, 12
+   validators; one exits and one is activated at epoch 2, so the active sets of epochs 1 and 2 differ), ci_chain =
+   [a block at slot 17 carrying one deposit of a new key; empty slots to 25]: two epoch boundaries (two RotateEpochs)
+   and one registry extension.  Every hypothesis holds, the chain is accepted, and the maintained context of the final
+   state has 13 effective balances and current epoch 3. *)
+Example C08_impl_nonvacuous :
+  Config_wf (cfg ci_E) /\ lengths_inv Phase0 ci_st /\ new_ok ci_E ci_st /\ sync_registered Phase0 ci_st /\
+  spec_chain ci_E ci_chain Phase0 ci_st = Some (Phase0, ci_s25) /\ chain_hyp ci_E ci_chain Phase0 ci_st /\
+  slot ci_s25 = 25 /\ length (validators ci_s25) = 13%nat /\
+  get_active_validator_indices ci_st 1 <> get_active_validator_indices ci_st 2 /\
+  exists e0 e', new_epochs_context ci_E Phase0 ci_st = Ok e0 /\ epc_chain ci_E ci_chain Phase0 ci_st e0 = Ok e' /\
+    epc_matches ci_E Phase0 ci_s25 e' /\ length (epc_effective_balances e') = 13%nat /\ se_epoch (epc_cur e') = 3.
+Proof. exact ci_nonvacuous. Qed.
+Print Assumptions C08_impl_nonvacuous.
+
+(* the pinned snapshot (before fix 8e640f4 "extend epc.EffectiveBalances when a deposit adds a validator"):
+   epc_apply_deposit_orig extends the pubkey cache only.  Starting from a matching context, one deposit of a new key
+   leaves the maintained context with 12 effective balances where the state has 13 validators. *)
+Theorem C08_impl_deposit_path_orig_refuted :
+  exists E f st e pk wc amount sig e',
+    epc_matches E f st e /\ epc_apply_deposit_orig E e st pk wc amount sig = Ok e' /\
+    ~ epc_matches E f (apply_deposit E f st pk wc amount sig) e'.
+Proof. exact deposit_path_orig_refuted. Qed.
+Print Assumptions C08_impl_deposit_path_orig_refuted.
